@@ -399,7 +399,9 @@ class C18(CompSpec):
         "terminal states, unknown tokens, absent ids, foreign ids, hostile whitespace / blank lines) served by a scripted squeue executable to a real HpcSubmitter.run() round: an id may "
         "leave the persisted active set only if absent or terminal; (c) 12 kinds of sbatch reply (valid, decorated, without id, garbage, empty, non-zero) served by a scripted sbatch to a "
         "real round: active set == ids really announced, failing sbatch executed 1+6 times; (d) random failure/success/permanent-error sequences against run_command with 0-7 retries: "
-        "executions counted by the scripted command == expectation (<= retries+1, stop at first success, stop at a listed permanent error); non-trivial per part: >= 2 optional fields / "
+        "executions counted by the scripted command == expectation (<= retries+1, stop at first success, stop at a listed permanent error); (e) whole simulated submissions (first rounds, "
+        "node rounds, parameters as submit-jobs options, resubmissions with -s <changed groups>): the script on disk at the instant of every sbatch carries the #SBATCH set, last line and run "
+        "options of the group as recorded for the submission at that moment; non-trivial per part: >= 2 optional fields / "
         "listing mixing live and finished ids / unparsable reply / sequence starting with a failure"
     )
     cnt = {"quick": {"status": 120, "submit": 40, "retries": 200, "script_extra": 100}, "thorough": {"status": 600, "submit": 150, "retries": 1500, "script_extra": 1500}}
@@ -410,11 +412,41 @@ class C18(CompSpec):
         out += [{"fn": "comp.c18:chunk", "args": {"part": "script", "count": c["script_extra"], "seed": sub_seed(seed, k, "C18a2")}} for k in range(4)]
         for part in ("status", "submit", "retries"):
             out += [{"fn": "comp.c18:chunk", "args": {"part": part, "count": c[part], "seed": sub_seed(seed, k, "C18" + part)}} for k in range(14)]
+        # (e) the scripts of whole simulated submissions, read at the instant of every sbatch: first submissions, later rounds by
+        # compute nodes, parameters given as submit-jobs options, and resubmissions with `-s <changed groups>` (new account /
+        # walltime / options: the script must carry what the submission's recorded groups say from that command on)
+        from checks_sim import sim_task
+        from sim import scenario
+
+        for k in range({"quick": 48, "thorough": 500}[tier]):
+            s = sub_seed(seed, k, "C18sim")
+            rng = random.Random(s)
+            scen = scenario.normalize(scenario.gen_scenario(rng, max_jobs=7, min_jobs=3, fail_p=0.5))
+            scen["script_prop"] = "C18"
+            for g in scen["groups"]:
+                g["batch"] = rng.randint(1, 3)
+                if k % 3 == 1:
+                    g["wall_spelling"] = rng.choice(["hhms", "dhms", "h_m_s"])
+            scenario.normalize(scen)
+            if k % 4 == 0:
+                scenario.to_cli_mode(scen)
+            t = sim_task(scen, s, len(out))
+            if k % 2:
+                scen["resubmit"] = {"rounds": [{"failed": True, "missing": True, "successful": rng.random() < 0.5}]}
+                if k % 4 == 1 or not any(j["rc"] for j in scen["jobs"]):
+                    scen["resubmit"]["rounds"][0]["successful"] = True
+                scen["resubmit"]["rounds"][0]["groups"] = scenario.changed_groups(rng, scen["groups"])
+                t["args"]["cls"] = "sim.resub:ResubSim"
+            out.append(t)
         return out
 
+    zygote = True
+
     def counters(self, tasks, results):
-        ok = [r for r in results if not r.get("error")]
-        out = {}
+        sims = [r for t, r in zip(tasks, results) if t["fn"] == "sim" and not r.get("error")]
+        ok = [r for t, r in zip(tasks, results) if t["fn"] != "sim" and not r.get("error")]
+        out = {"simulated_submissions": len(sims), "scripts_read_at_the_simulated_sbatch": sum(r.get("sbatches") or 0 for r in sims),
+               "simulated_resubmissions_with_changed_hpc_parameters": sum(1 for r in sims if (r.get("epochs") or 1) > 1)}
         for r in ok:
             for k, v in (r.get("stats") or {}).items():
                 if isinstance(v, int):
@@ -424,7 +456,7 @@ class C18(CompSpec):
         out["cases_by_part"] = {}
         for r in ok:
             out["cases_by_part"][r["part"]] = out["cases_by_part"].get(r["part"], 0) + r["cases"]
-        out["all_512_optional_field_subsets_enumerated"] = sum(r["cases"] for t, r in zip(tasks, results) if t["args"].get("all_subsets") and not r.get("error")) == 512
+        out["all_512_optional_field_subsets_enumerated"] = sum(r["cases"] for t, r in zip(tasks, results) if t["fn"] != "sim" and t["args"].get("all_subsets") and not r.get("error")) == 512
         return out
 
     def floors(self, cov):
